@@ -674,7 +674,9 @@ func c16Header(c *Ctx, p *Prog) {
 	for _, o := range outs {
 		var haveNode, same *bool
 		bad := ""
-		for k, v := range o.Assign {
+		for _, k := range o.AtomKeys() {
+			v := o.Assign[k]
+			_ = v
 			s := o.AtomSyms[k]
 			vv := v
 			switch {
@@ -728,7 +730,7 @@ func c16Header(c *Ctx, p *Prog) {
 					return s.String()
 				}
 				var where []*Sym
-				for k2 := range o.Assign {
+				for _, k2 := range o.AtomKeys() {
 					where = append(where, o.AtomSyms[k2])
 				}
 				for _, a2 := range o.Actions {
